@@ -260,6 +260,47 @@ func d10() (bool, string) {
 	return false, fmt.Sprintf("no second genesis (chain length %d)", len(blocks))
 }
 
+// ---- D11: int64 wrap-around of `previous block date + interval`: a chain whose FIRST block is dated just below 2^63
+// (two and a half centuries after the node's clock) and whose following blocks are dated one interval later each —
+// in wrapped arithmetic, i.e. far in the past — passes verifyBlock's date checks (the first block's date is never
+// tested, the others are "expected" and "not in the future")
+func d11() (bool, string) {
+	s := settings()
+	adv, host := node.NewWallet(3), node.NewWallet(0)
+	const maxI64 = int64(^uint64(0) >> 1)
+	t0 := maxI64 - s.Interval/2 // first block: later than any clock reading the node will ever see
+	t1 := t0 + s.Interval       // wraps: about -2^63
+	t2 := t1 + s.Interval
+	g := &node.RawBlock{Timestamp: t0}
+	g.SetTxs(node.RewardRaw(adv.Address, true, t0, s.Genesis))
+	g.Added = []string{adv.Address}
+	b1 := &node.RawBlock{Timestamp: t1}
+	b1.SetTxs(node.RewardRaw(adv.Address, false, t1, 0))
+	b2 := &node.RawBlock{Timestamp: t2}
+	b2.SetTxs(node.RewardRaw(adv.Address, false, t2, 0))
+	chain, err := node.Relink([]*node.RawBlock{g, b1, b2})
+	if err != nil {
+		return false, "build: " + err.Error()
+	}
+	n := node.New("n", s, host.Address)
+	n.Pool.Validate(T0)
+	bytes, _ := json.Marshal(chain)
+	n.Senders.Set([]application.Sender{&node.Sender{TargetValue: "adv", Blocks: func(h uint64) ([]byte, error) {
+		if h == 0 {
+			return bytes, nil
+		}
+		return []byte("[]"), nil
+	}}})
+	now := T0 + s.Interval
+	n.Chain.Update(now)
+	bs := n.AllBlocks()
+	if len(bs) != 3 || bs[0].Timestamp() != t0 {
+		return false, fmt.Sprintf("the wrapped chain was not adopted (chain length %d): %v", len(bs), tail(n.Log.Drain(), 2))
+	}
+	return true, fmt.Sprintf("at time %d the node adopted a chain dated [%d, %d, %d]: its first block lies %d ns after the node's clock, and the "+
+		"second block is dated 2^64 - interval BEFORE the first (the expected date previous + interval wrapped around int64)", now, t0, t1, t2, t0-now)
+}
+
 // ---- D3: honest block with a yielding output to an address removed by the previous block is rejected
 // by a peer that holds the same chain plus its own competing tip
 func d3() (bool, string) {
@@ -520,6 +561,7 @@ var witnesses = []witness{
 	{"D1", "C01", "C01/fee-sum-wraps-uint64", d1, false},
 	{"D10", "C01", "C01/genesis-minted-again-after-adopting-chain-dated-zero", d10, false},
 	{"D1b", "C01", "C01/recreated-id-valued-as-old-instance", d1b, false},
+	{"D11", "C04", "C04/chain-dated-across-the-int64-wrap-adopted", d11, false},
 	{"D3", "C05", "C05/competitor-tip/yield-to-address-removed-by-previous-block", d3, false},
 	{"D9", "C11", "C11/same-output-twice-admitted", d9, false},
 	{"D2", "C05", "C05/producer-includes-spend-of-last-block-output", d2, false},
